@@ -1,57 +1,60 @@
 (* Entry point of the C12 correspondence.  A harness case is evaluated on the model with bytes = position codes
-   (attempt, stream, offset), so that the predicted content of every file can be printed as a few runs of
-   consecutive codes and compared with what the real run left on disk. *)
-From Coq Require Import List Bool Arith NArith.
+   (attempt, stream, offset) - primitive 63-bit integers, used for this evaluation only - so that the predicted
+   content of every file can be printed as a few runs of consecutive codes and compared with what the real run
+   left on disk. *)
+From Coq Require Import List Bool Arith NArith ZArith Uint63.
 Import ListNotations.
 From BD.Log Require Import Model.
 
-Definition code (a : N) (x : stream) (i : N) : N :=
-  (a * 2199023255552 + (match x with Err => 1099511627776 | Out => 0 end) + i)%N.
+Local Open Scope uint63_scope.
 
-Fixpoint iota (n : nat) (start : N) : list N :=
-  match n with 0 => [] | S k => start :: iota k (N.succ start) end.
+Definition code (a : int) (x : stream) (i : int) : int :=
+  a * 2199023255552 + (match x with Err => 1099511627776 | Out => 0 end) + i.
+
+Fixpoint iota (n : nat) (start : int) : list int :=
+  match n with 0%nat => [] | S k => start :: iota k (start + 1) end.
 
 (* the emitter alternates blocks of blk bytes on stdout and stderr; io.Copy reads at most 32 KiB at a time *)
-Fixpoint blocks (fuel : nat) (a : N) (blk : nat) (od : N) (ol : nat) (ed : N) (el : nat) : list (chunk N) :=
+Fixpoint blocks (fuel : nat) (a : int) (blk : nat) (od : int) (ol : nat) (ed : int) (el : nat) : list (chunk int) :=
   match fuel with
-  | 0 => []
+  | 0%nat => []
   | S f =>
       let ob := Nat.min blk ol in
       let eb := Nat.min blk el in
-      (if ob =? 0 then [] else [(Out, iota ob (code a Out od))]) ++
-      (if eb =? 0 then [] else [(Err, iota eb (code a Err ed))]) ++
-      (if (ol - ob =? 0) && (el - eb =? 0) then []
-       else blocks f a blk (od + N.of_nat ob)%N (ol - ob) (ed + N.of_nat eb)%N (el - eb))
+      (if (ob =? 0)%nat then [] else [(Out, iota ob (code a Out od))]) ++
+      (if (eb =? 0)%nat then [] else [(Err, iota eb (code a Err ed))]) ++
+      (if ((ol - ob =? 0) && (el - eb =? 0))%nat then []
+       else blocks f a blk (od + of_Z (Z.of_nat ob)) (ol - ob)%nat (ed + of_Z (Z.of_nat eb)) (el - eb)%nat)
   end.
-Definition attempt_chunks (a : nat) (blk : nat) (osz esz : N) : list (chunk N) :=
+Definition attempt_chunks (a : nat) (blk : nat) (osz esz : N) : list (chunk int) :=
   let o := N.to_nat osz in let e := N.to_nat esz in
-  blocks (S (o / blk + e / blk)) (N.of_nat a) blk 0%N o 0%N e.
+  blocks (S (o / blk + e / blk)) (of_Z (Z.of_nat a)) blk 0 o 0 e.
 
-Fixpoint attempts (a : nat) (blk : nat) (sizes : list (N * N)) : list (list (chunk N)) :=
+Fixpoint attempts (a : nat) (blk : nat) (sizes : list (N * N)) : list (list (chunk int)) :=
   match sizes with [] => [] | (o, e) :: r => attempt_chunks a blk o e :: attempts (S a) blk r end.
 
-Fixpoint rle_aux (st len : N) (l : list N) : list (N * N) :=
+Fixpoint rle_aux (st len : int) (l : list int) : list (int * int) :=
   match l with
   | [] => [(st, len)]
-  | x :: r => if (x =? st + len)%N then rle_aux st (len + 1)%N r else (st, len) :: rle_aux x 1%N r
+  | x :: r => if x =? st + len then rle_aux st (len + 1) r else (st, len) :: rle_aux x 1 r
   end.
-Definition rle (l : list N) : list (N * N) := match l with [] => [] | x :: r => rle_aux x 1%N r end.
+Definition rle (l : list int) : list (int * int) := match l with [] => [] | x :: r => rle_aux x 1 r end.
 
 (* (stdout?, stderr?, output?, script?), block size, per attempt (stdout bytes, stderr bytes), lates *)
 Definition lcase := (bool * bool * bool * bool * nat * list (N * N) * list nat)%type.
 
-Definition tag (k kind : N) (l : list (N * N)) : list (N * N * N * N) := map (fun p => (k, kind, fst p, snd p)) l.
+Definition tag (k kind : int) (l : list (int * int)) : list (int * int * int * int) := map (fun p => (k, kind, fst p, snd p)) l.
 
 (* rows (case, kind, a, b): kind 0/1/2 = a run [a, a+b) of codes in the log / stdout: / stderr: file;
-   3 = flags (a = blocked); 4 = run in the captured output; 5 = bytes left in a buffer of the last attempt *)
-Definition eval_case (k : N) (c : lcase) : list (N * N * N * N) :=
+   3 = flags (a = blocked); 4 = run in the captured output *)
+Definition eval_case (k : int) (c : lcase) : list (int * int * int * int) :=
   let '(so, se, ou, sc, blk, sizes, lates) := c in
   let cf := {| c_stdout := so; c_stderr := se; c_output := ou; c_script := sc |} in
-  let s := run N cf (attempts 0 blk sizes) lates in
-  tag k 0 (rle (disk N s (logpath N s))) ++ tag k 1 (rle (disk N s P_STDOUT)) ++ tag k 2 (rle (disk N s P_STDERR))
-  ++ [(k, 3, if blocked N s then 1 else 0, 0)]%N
-  ++ tag k 4 (match outvar N s with Some v => rle v | None => [] end).
+  let s := run int cf (attempts 0 blk sizes) lates in
+  tag k 0 (rle (dsk int s (logpath int s))) ++ tag k 1 (rle (dsk int s P_STDOUT)) ++ tag k 2 (rle (dsk int s P_STDERR))
+  ++ [(k, 3, if blocked int s then 1 else 0, 0)]
+  ++ tag k 4 (match outvar int s with Some v => rle v | None => [] end).
 
-Fixpoint eval_from (k : N) (cs : list lcase) : list (N * N * N * N) :=
-  match cs with [] => [] | c :: r => eval_case k c ++ eval_from (N.succ k) r end.
-Definition eval_cases := eval_from 0%N.
+Fixpoint eval_from (k : int) (cs : list lcase) : list (int * int * int * int) :=
+  match cs with [] => [] | c :: r => eval_case k c ++ eval_from (k + 1) r end.
+Definition eval_cases := eval_from 0.
